@@ -495,13 +495,22 @@ def rule_twisted_idle_flag(ctx: Ctx) -> RuleResult:
     callback must lower the flag on every normal path - also when no idle callback is registered at that moment -
     otherwise _enable_twisted_idle() returns early for ever and idle callbacks registered later never run."""
     p = ctx.p
-    rr = RuleResult("PASS", "C13.9", "TwistedEventLoop._twisted_idle_callback lowers _twisted_idle_enabled on every normal path", floor=1)
+    rr = RuleResult("PASS", "C13.9", "TwistedEventLoop._twisted_idle_callback lowers _twisted_idle_enabled on every normal path and when an idle callback raises", floor=2)
     fi = p.func(LOOPS["twisted"] + "._twisted_idle_callback")
     cfg = cfg_of(fi)
     stores = [n for n in cfg.nodes if isinstance(n.ast, ast.Assign) and any(isinstance(t, ast.Attribute) and t.attr == "_twisted_idle_enabled" for t in n.ast.targets) and isinstance(n.ast.value, ast.Constant) and n.ast.value.value is False]
     rr.inst("flag lowered", True, {"stores": len(stores)})
     if not stores or cfg.exit in cfg.reachable([cfg.entry], avoid=stores, labels=("n", "T", "F")):
         rr.add(finding("PASS", fi, stores[0].stmt if stores else fi.node, "a normal path through _twisted_idle_callback (no idle callback registered when the timer fires) leaves _twisted_idle_enabled set: _enable_twisted_idle() then never schedules the timer again and idle callbacks registered later are never called", construct="idle flag not lowered on every path"))
+        return rr
+    # ... and on the exceptional way out: the idle callbacks are user code (MainLoop.entering_idle redraws); when one
+    # raises, run() ends - but the loop object lives on, and a flag left raised means no idle run in any later session
+    calls = nodes_where(cfg, lambda c: isinstance(c, ast.Call) and isinstance(c.func, ast.Name) and c.func.id not in ("list", "len", "isinstance"))
+    for c in calls:
+        ok = cfg.must_pass(c, stores, ends=[cfg.raise_exit], labels=("e", "n", "T", "F"))
+        rr.inst(f"flag lowered when {norm(c.stmt, 30)} raises", True, {"call": norm(c.stmt, 40), "lowered_on_the_exceptional_exit": ok})
+        if not ok:
+            rr.add(finding("PASS", fi, c.stmt, f"when the idle callback `{norm(c.stmt, 30)}` raises, _twisted_idle_callback is left with _twisted_idle_enabled still set: run() ends with the exception, and in every later session on this loop _enable_twisted_idle() returns early - the idle callbacks (the redraw after input) never run again", construct="idle flag not lowered when a callback raises"))
     return rr
 
 
@@ -860,6 +869,7 @@ from ..mutants import Mut  # noqa: E402
 _S = "urwid/event_loop/select_loop.py"
 _A = "urwid/event_loop/asyncio_loop.py"
 MUTANTS = [
+    Mut("twisted-idle-flag-kept-on-exception", "urwid/event_loop/twisted_loop.py", "TwistedEventLoop._twisted_idle_callback", "        try:\n            for handle, callback in list(self._idle_callbacks.items()):\n                # a callback removed by an earlier one in this pass is not called\n                if handle in self._idle_callbacks:\n                    callback()\n        finally:\n            # also when a callback raised: the scheduled call is over, the next one has to be scheduled anew\n            self._twisted_idle_enabled = False\n", "        for handle, callback in list(self._idle_callbacks.items()):\n            if handle in self._idle_callbacks:\n                callback()\n        self._twisted_idle_enabled = False\n", "PASS|event_loop.twisted_loop.TwistedEventLoop._twisted_idle_callback|idle flag not lowered when a callback raises"),
     Mut("select-batch-guard-membership-only", _S, "SelectEventLoop._loop", "            if self._watch_files.get(record.fd) is record.data:", "            if record.fd in self._watch_files:", "SNAP|event_loop.select_loop.SelectEventLoop._loop|carried callback dispatched without identity test"),
     Mut("twin-select-batch-guard-is-swapped", _S, "SelectEventLoop._loop", "            if self._watch_files.get(record.fd) is record.data:", "            if record.data is self._watch_files.get(record.fd):", twin=True),
     Mut("asyncio-last-exception-wins", _A, "AsyncioEventLoop._exception_handler", "            if not isinstance(exc, ExitMainLoop) and self._exc is None:", "            if not isinstance(exc, ExitMainLoop):", "GUARD|event_loop.asyncio_loop.AsyncioEventLoop._exception_handler|parked exception overwritten"),
@@ -883,7 +893,7 @@ MUTANTS = [
     Mut("select-batch-calls-removed-watch", "urwid/event_loop/select_loop.py", "SelectEventLoop._loop", "            if self._watch_files.get(record.fd) is record.data:\n                record.data()\n                self._did_something = True", "            record.data()\n            self._did_something = True", "SNAP|event_loop.select_loop.SelectEventLoop._loop"),
     Mut("select-idle-pass-calls-removed", "urwid/event_loop/select_loop.py", "SelectEventLoop._entering_idle", "        for handle, callback in list(self._idle_callbacks.items()):\n            # a callback removed by an earlier one in this pass is not called\n            if handle in self._idle_callbacks:\n                callback()", "        for callback in list(self._idle_callbacks.values()):\n            callback()", "SNAP|event_loop.select_loop.SelectEventLoop._entering_idle"),
     Mut("tornado-handle-from-dict-size", "urwid/event_loop/tornado_loop.py", "TornadoEventLoop.watch_file", "        self._max_watch_handle += 1\n        handle = self._max_watch_handle\n", "        handle = len(self._watch_handles) + 1\n", "TAB|event_loop.tornado_loop.TornadoEventLoop.watch_file"),
-    Mut("twisted-idle-flag-lowered-in-loop-only", "urwid/event_loop/twisted_loop.py", "TwistedEventLoop._twisted_idle_callback", "            callback()\n        self._twisted_idle_enabled = False", "            self._twisted_idle_enabled = False\n            callback()", "PASS|event_loop.twisted_loop.TwistedEventLoop._twisted_idle_callback"),
+    Mut("twisted-idle-flag-lowered-in-loop-only", "urwid/event_loop/twisted_loop.py", "TwistedEventLoop._twisted_idle_callback", "                    callback()\n        finally:\n            # also when a callback raised: the scheduled call is over, the next one has to be scheduled anew\n            self._twisted_idle_enabled = False", "                    self._twisted_idle_enabled = False\n                    callback()\n        finally:\n            pass", "PASS|event_loop.twisted_loop.TwistedEventLoop._twisted_idle_callback"),
     Mut("twisted-wrapper-catches-exception-only", "urwid/event_loop/twisted_loop.py", "TwistedEventLoop.handle_exit", "            except BaseException as exc:", "            except Exception as exc:", "WRAP|event_loop.twisted_loop.TwistedEventLoop.handle_exit"),
     Mut("tornado-fd-zero-not-removed", "urwid/event_loop/tornado_loop.py", "TornadoEventLoop.remove_watch_file", "if (fd := self._watch_handles.pop(handle, None)) is not None:", "if fd := self._watch_handles.pop(handle, None):", "TRUTHY|event_loop.tornado_loop.TornadoEventLoop.remove_watch_file"),
     Mut("select-idle-live-dict", _S, "SelectEventLoop._entering_idle", "for handle, callback in list(self._idle_callbacks.items()):", "for handle, callback in self._idle_callbacks.items():", "SNAP|"),
